@@ -54,6 +54,8 @@ var corpusScenarios = []corpusScenario{
 	{"credit-type-abbreviation-prefixes", false, corpusCreditTypePrefixes},
 	{"genesis-with-omitted-zero-amounts", false, corpusOmittedZeroAmounts},
 	{"markets-of-every-exponent", false, corpusMarketsOfEveryExponent},
+	{"rolled-back-market-creation", false, corpusRolledBackMarketCreation},
+	{"amounts-around-2^64-units", false, corpusAmountsAroundWordSize},
 }
 
 func init() { QuickCounts["corpus"] = len(corpusScenarios) }
@@ -967,5 +969,63 @@ func corpusMarketsOfEveryExponent(c Cfg) *Result {
 	g.Do(a.MsgAddAllowedDenom("denom7", "DISPLAY7", 7), "gov: exponent 7 is not an SI exponent (rejected)")
 	g.Commit()
 	g.GenesisRT("markets in denoms of every allowed exponent")
+	return g.Finish()
+}
+
+// ---- rolled-back-market-creation (C03 / C10) -----------------------------------------------------------------------
+// A transaction creates a market (first sell order in a denom) and a later message of the same transaction, which
+// looks that market up, fails: everything is rolled back, including the market id sequence.  The next market gets the
+// same id for ANOTHER denom; nothing of the rolled-back run may be remembered (a buyer bids in the order's ask denom
+// and the seller is paid in it).
+
+func corpusRolledBackMarketCreation(c Cfg) *Result {
+	g := NewG(c, chain.Options{GenesisTime: T0})
+	a := g.App
+	g.Begin(g.now.Add(6 * time.Second))
+	g.setupDenoms()
+	_, _, denom := g.corpusWorld()
+	next := g.Rec.State().Sequences["SellOrder"] + 1
+	res := g.DoTx("one transaction: user 2 sells 1 credit at 1uatom (creating the first market) and then updates that order to a quantity it cannot escrow: rolled back as a whole",
+		a.MsgSell(2, chain.SellOrder(denom, "1", coin("uatom", 1), true, nil)),
+		a.MsgUpdateSellOrders(2, &market.MsgUpdateSellOrders_Update{SellOrderId: next, NewQuantity: "1000000000", NewAskPrice: coin("uatom", 2), DisableAutoRetire: true}))
+	if res.OK {
+		g.bump("rolled-back-market-creation:UNEXPECTEDLY-OK")
+	}
+	g.Do(a.MsgSell(1, chain.SellOrder(denom, "10", coin("uregen", 5000000), true, nil)), "user 1 sells 10 credits at 5000000uregen: the market created now re-uses the rolled-back id")
+	id := g.Rec.State().Sequences["SellOrder"]
+	g.Commit()
+	g.Begin(g.nextTime())
+	g.Do(a.MsgBuyDirect(3, chain.BuyOrder(id, "1", coin("uatom", 5000000), true, "", "", coin("uatom", 1000000))), expectNote(false, "C03", "bid-denom!=ask-denom", "a bid in uatom, the denom of the rolled-back market"))
+	g.Do(a.MsgBuyDirect(3, chain.BuyOrder(id, "2", coin("uregen", 5000000), true, "", "", coin("uregen", 1000000))), expectNote(true, "C03", "matching-bid-denom-rejected", "an honest bid in the order's ask denom uregen"))
+	g.Do(a.MsgUpdateSellOrders(1, &market.MsgUpdateSellOrders_Update{SellOrderId: id, NewQuantity: "8", NewAskPrice: coin("uregen", 6000000), DisableAutoRetire: true}), expectNote(true, "C06", "update-in-allowed-denom-rejected", "the seller re-prices in the same denom"))
+	g.Commit()
+	return g.Finish()
+}
+
+// ---- amounts-around-2^64-units (C01 / C19) -----------------------------------------------------------------------------
+// Balances whose coefficient (in 10^-6 credits) is close to 2^63 and 2^64: every sum and difference must be exact.
+
+func corpusAmountsAroundWordSize(c Cfg) *Result {
+	g := NewG(c, chain.Options{GenesisTime: T0})
+	a := g.App
+	g.Begin(g.now.Add(6 * time.Second))
+	cid := g.mkClass(0, []int{0}, "C")
+	pid := g.mkProject(0, cid, "")
+	const half = "9223372036854.775808"  // 2^63 units
+	const most = "18446744073709.551615" // 2^64 - 1 units
+	d1 := g.mkBatch(0, pid, date(2020, 1, 1), date(2021, 1, 1), true, nil, "2 x 2^63 units to the seller, 2^63 to the buyer", g.iss(1, half, ""), g.iss(1, half, ""), g.iss(3, half, ""))
+	d2 := g.mkBatch(0, pid, date(2020, 2, 1), date(2021, 2, 1), true, nil, "2^64-1 units and one unit", g.iss(1, most, ""), g.iss(2, "0.000001", ""))
+	g.Do(a.MsgSell(1, chain.SellOrder(d1, half, coin("stake", 1), true, nil)), "sell 2^63 units of 2^64")
+	id := g.Rec.State().Sequences["SellOrder"]
+	g.Do(a.MsgCancelSellOrder(1, id), "cancel: 2^63 escrowed + 2^63 tradable")
+	g.Do(a.MsgSell(1, chain.SellOrder(d1, half, coin("stake", 1), false, nil)), "sell 2^63 units again")
+	id = g.Rec.State().Sequences["SellOrder"]
+	g.Do(a.MsgSendCredits(2, 1, d2, "0.000001", "", "", ""), "one unit on top of 2^64-1")
+	g.Do(a.MsgSendCredits(1, 3, d1, half, "", "", ""), "send 2^63 units to a holder of 2^63")
+	g.Do(a.MsgRetire(3, "US", "r", chain.Credits(d1, half)), "retire 2^63 of 2^64")
+	g.Do(a.MsgRetire(3, "US", "r", chain.Credits(d1, half)), "retire the other 2^63: retired 2^64")
+	g.Do(a.MsgCancelSellOrder(1, id), "cancel the second order")
+	g.Commit()
+	g.GenesisRT("balances around 2^64 units")
 	return g.Finish()
 }
